@@ -48,6 +48,7 @@ struct TaskRec {
     long step = -1;                 // logical time at which it ran
     int worker = -1;
     bool ranAfterRegion = false;
+    long domain = 0;                // sibling domain the dependences were resolved in (OpenMP: generating task region)
     std::string label;
 };
 
